@@ -46,6 +46,10 @@ static void wait_stop_restart()
     L = Ledger{};
     g = &L;
     int p1 = pmc_choose(2, 0), p2 = 2 + pmc_choose(2, 0);
+    // 1: the entry function of incarnation 2 calls finalize() first and keeps working (spawns, yields) before it
+    // returns its result: stop() is woken by the finalize signal long before the result exists
+    static int early;
+    early = pmc_choose(2, 0);
     pmc_on_stuck(on_stuck);
     // incarnation 1: 2 workers
     {
@@ -75,8 +79,19 @@ static void wait_stop_restart()
         L.finalize_called = 0;
         pika::start(
             [](int, char**) -> int {
+                if (early)
+                {
+                    g->finalize_called = 1;
+                    pika::finalize();
+                }
                 submit_chain(5, 7);
                 pika::this_thread::yield();
+                if (early)
+                {
+                    while (!g->all_done(5, 8)) pika::this_thread::yield();
+                    pika::this_thread::yield();
+                    return 42;
+                }
                 g->finalize_called = 1;
                 pika::finalize();
                 return 42;
@@ -88,7 +103,7 @@ static void wait_stop_restart()
         PMC_ASSERT(L.all_done(5, 8), "restart-incomplete", "second incarnation did not run its own work completely: left = %d %d %d", L.left[5], L.left[6], L.left[7]);
         PMC_ASSERT(r == 42, "stop-result", "stop() returned %d, the entry function returned 42", r);
     }
-    pmc_outcome("ok");
+    pmc_outcome("ok early=%d", early);
 }
 
 // pika::wait() with the non-default queue policies (local, static: local_queue_scheduler has its own
